@@ -25,6 +25,7 @@ from ..mon import lines, sched
 from . import c10
 
 ID = 'C11'
+ANCHORS = ['mido.ports']
 LEVEL = 'fault_enumeration'
 RULE = ('all operation sequences of length <= 4 (quick) / <= 5 (thorough) over {send, poll, '
         'iter_pending, blocking receive, iterate, close, with-block, __del__, repr} on a recording '
